@@ -18,15 +18,22 @@ def _mods():
 class _Stdin:
     def __init__(self, enc): self.encoding = enc
 
+class _StdinNoAttr:
+    """a replaced sys.stdin without an `encoding` attribute (e.g. a plain file-like object)"""
+
+NOATTR, NOSTDIN = '<no-encoding-attribute>', '<sys.stdin is None>'
+
 def _with_stdin(enc, f):
-    """run f() with sys.stdin.encoding = enc (None: attribute is None -> sys.getdefaultencoding())"""
+    """run f() in an environment where `getattr(sys.stdin, 'encoding', None)` is enc:
+    a str, None (attribute is None), NOATTR (object without the attribute), NOSTDIN (sys.stdin = None)"""
     old = sys.stdin
-    sys.stdin = _Stdin(enc)
+    sys.stdin = None if enc == NOSTDIN else _StdinNoAttr() if enc == NOATTR else _Stdin(enc)
     try: return f()
     finally: sys.stdin = old
 
 def resolved_default(enc):
-    return enc or sys.getdefaultencoding()
+    """what the source computes: getattr(sys.stdin, 'encoding', None) or sys.getdefaultencoding()"""
+    return (enc if enc not in (None, NOATTR, NOSTDIN) else None) or sys.getdefaultencoding()
 
 OTHERS = {
     'none': lambda: None, 'int': lambda: 0, 'int1': lambda: 1, 'float': lambda: 1.5, 'list': lambda: [], 'tuple': lambda: ('a',),
@@ -79,7 +86,7 @@ def impl(c):
             return pair(canon(b), call(lambda: eu.safe_decode(b, incoming=c['encoding'], errors=c['errors'])))
         return _with_stdin(c.get('stdin'), f)
     if op == 'to_utf8':
-        return call(lambda: eu.to_utf8(val(c['value'])))
+        return _with_stdin(c.get('stdin'), lambda: call(lambda: eu.to_utf8(val(c['value']))))
     if op == 'to_slug':
         def f():
             r = call(lambda: su.to_slug(val(c['value']), **kw(c, 'incoming', 'errors')))
@@ -244,7 +251,7 @@ def oracle(c, io):
     if op == 'to_utf8':
         v = val(c['value'])
         if isinstance(v, bytes):
-            return None if io == canon(v) else 'to_utf8 of bytes gives %r' % io
+            return None if io == canon(v) else 'to_utf8(%r) gives %r with sys.stdin.encoding = %r; bytes must come back unchanged' % (v, io, c.get('stdin'))
         w = _try(lambda: v.encode('utf-8'))
         if w[0] == 'ok':
             return None if io == canon(w[1]) else 'to_utf8(%r) gives %r, UTF-8 is %r' % (v, io, w[1])
@@ -401,7 +408,8 @@ def rand_errors(rng, allow_default=True):
     if r < 0.95: return rng.choice(['nope', 'Strict', 'STRICT', 'ignore ', ''])
     return rng.choice(REGISTERED_UNMODELLED)
 
-STDINS = [None, None, 'utf-8', 'UTF-8', 'ascii', 'ANSI_X3.4-1968', 'latin-1', 'ISO-8859-1', 'cp1252', 'utf-16', 'koi8-r']
+STDINS = [None, NOATTR, NOSTDIN, 'utf-8', 'UTF-8', 'ascii', 'ANSI_X3.4-1968', 'latin-1', 'ISO-8859-1', 'cp1252', 'utf-16', 'UTF-16', 'koi8-r', '']
+ENVS = [None, NOATTR, NOSTDIN, 'utf-8', 'latin-1', 'ascii', 'cp1252', 'UTF-16', '']
 
 def rand_other(rng):
     return O(rng.choice(sorted(OTHERS)))
@@ -444,7 +452,7 @@ def one_case(rng):
         if e is not None: c['errors'] = e
         return c
     if r < 0.68:
-        return {'op': 'to_utf8', 'value': rand_value(rng)}
+        return {'op': 'to_utf8', 'value': rand_value(rng), 'stdin': stdin}
     if r < 0.86:
         c = {'op': 'to_slug', 'value': rand_slug_value(rng), 'stdin': stdin}
         if c['value']['t'] == 'b' and rng.random() < 0.7: c['incoming'] = rand_name(rng, rng.choice(['utf-8', 'latin-1', 'ascii', 'cp1252']))
@@ -520,6 +528,17 @@ def boundary_cases():
         for cdc in ['utf-16', 'utf-16-le', 'utf-16-be', 'utf-32', 'utf-32-le', 'utf-32-be']:
             for e in POLICIES + ('nope',):
                 out.append({'op': 'enc', 'text': chr(x) + 'a' + chr(x), 'codec': cdc, 'errors': e})
+    for env in ENVS:
+        for v in [B(b'caf\xe9'), B(b'caf\xc3\xa9'), B(b'\x80\x9f'), B(b'\xff\xfeA\x00'), B(b''), B(b'abc'), S('caf\xe9'), S('\u20ac\U0001f600'), S(''), O('none'), O('bytearray')]:
+            out.append({'op': 'to_utf8', 'value': v, 'stdin': env})
+            out.append({'op': 'safe_decode', 'value': v, 'stdin': env})
+            out.append({'op': 'safe_decode', 'value': v, 'stdin': env, 'errors': 'replace'})
+            out.append({'op': 'to_slug', 'value': v, 'stdin': env})
+            for enc in (None, 'utf-8', 'UTF-8', 'latin-1', 'ascii'):
+                c = {'op': 'safe_encode', 'value': v, 'stdin': env}
+                if enc is not None: c['encoding'] = enc
+                out.append(c)
+                out.append(dict(c, errors='replace'))
     for name in sorted(OTHERS):
         for op in ('safe_decode', 'safe_encode', 'to_utf8', 'to_slug'):
             out.append({'op': op, 'value': O(name), 'stdin': None})
